@@ -467,18 +467,25 @@ Decor(base, d) ==
     [] d = "prefix" -> SubSeq(base, 1, Len(base) - 1)
     [] d = "doubled" -> base \o base
     [] d = "no_T" -> <<"P">> \o SubSeq(base, 3, Len(base))
+    \* digits of other scripts (tokens "U+xxxx" are concretised by the harness): Unicode decimal digits that python's
+    \* int() / Decimal() / the regex class \d accept, but that are outside every XSD lexical space
+    [] d = "arabic" -> [i \in 1..Len(base) |-> IF base[i] \in DigitChars THEN "U+066" \o base[i] ELSE base[i]]
+    [] d = "fullwidth" -> [i \in 1..Len(base) |-> IF base[i] \in DigitChars THEN "U+FF1" \o base[i] ELSE base[i]]
+    [] d = "one_devanagari" -> base \o <<"U+096F">>
     [] d = "no_unit" -> Front(base)
     [] d = "unit_lower" -> Front(base) \o <<LoC(base[Len(base)])>>
     [] d = "dot_nofrac" -> Front(base) \o <<".", base[Len(base)]>>
 
 IntBases == {<<"0">>, <<"7">>, <<"1","0">>, <<"1","2","3","4">>, <<"4","2","9","4","9","6","7","2","9","5">>}
 IntDecor == {"plain", "plus", "minus", "lead0", "ws_lead", "ws_trail", "underscore", "underscore3",
-             "exp_e", "exp_E", "frac0", "hex", "empty"}
+             "exp_e", "exp_E", "frac0", "hex", "empty", "arabic", "fullwidth", "one_devanagari"}
 DecBases == {<<"0">>, <<"1">>, <<"1","5">>, <<"1",".","5">>, <<"0",".","0","2","5">>, <<"1","2","3",".","4","5","6">>}
-DecDecor == {"plain", "plus", "minus", "lead0", "ws_lead", "ws_trail", "exp_e", "exp_E", "exp_neg", "exp_plus", "empty"}
+DecDecor == {"plain", "plus", "minus", "lead0", "ws_lead", "ws_trail", "exp_e", "exp_E", "exp_neg", "exp_plus", "empty",
+             "arabic", "fullwidth"}
 DurBases == {<<"P","T","1","S">>, <<"P","T","0",".","5","S">>, <<"P","T","1","H">>, <<"P","T","1","H","2","M","3","S">>,
              <<"P","T","9","0","M">>}
-DurDecor == {"plain", "ws_lead", "ws_trail", "lower", "no_T", "no_unit", "unit_lower", "doubled", "empty", "prefix"}
+DurDecor == {"plain", "ws_lead", "ws_trail", "lower", "no_T", "no_unit", "unit_lower", "doubled", "empty", "prefix",
+             "arabic", "fullwidth"}
 BoolDecor == {"plain", "upper", "capital", "ws_lead", "ws_trail", "doubled", "empty", "prefix"}
 BoolExtra == {<<"y","e","s">>, <<"n","o">>, <<"2">>, <<"o","n">>, <<"T">>, <<"-","1">>}
 EnumDecor == {"plain", "upper", "lower", "ws_lead", "ws_trail", "prefix", "doubled", "empty"}
@@ -503,6 +510,7 @@ ExpectOf(c) == LET cs == LexOf(c) IN
 LawLex(c) ==
   LET cs == LexOf(c)  e == ExpectOf(c) IN
   /\ (c.d = "plain" /\ ~(c.ty = "boolean" /\ c.base \in BoolExtra)) => e = "value"
+  /\ c.d \in {"arabic", "fullwidth", "one_devanagari"} => e = "raise"
   /\ c.d \in {"underscore", "underscore3", "exp_e", "exp_E", "exp_neg", "exp_plus", "hex", "empty", "upper", "capital",
               "doubled", "no_T", "no_unit", "unit_lower", "dot_nofrac", "prefix", "lower"}
         => (e = "raise" \/ (c.d \in {"upper", "capital"} /\ Upper(c.base) = c.base))
